@@ -81,6 +81,64 @@ def pointer_rule(ck, prog, names, report):
     return out
 
 
+def length_table_rule(ck, prog, report, tu="src/str/strerror_s.c", min_rows=8):
+    """clause: the length the library announces for one of its own message strings is the length of that string.
+    strerror_s decides 'fits / does not fit' with strerrorlen_s, which answers from a table of lengths kept next to the table of messages
+    (the nested strcpy_s's own verdict is ignored).  Decided over all rows: value returned for row i (table entry plus the constant the
+    function adds, read from the IR) == strlen(message i), for the message table indexed by the same expression."""
+    mods = [m for m in prog.mods if m["tu"] == tu]
+    if not mods:
+        ck.fail_broken("length-table rule: %s not analysed" % tu); return {}
+    gmap = mods[0]["gmap"]
+    out = {}
+    for fn in prog.allfuncs:
+        if fn.mod["tu"] != tu:
+            continue
+        for i in fn.insts():
+            if i["op"] != "load" or not i["ty"].startswith("i") or i["ops"][0].get("k") != "v":
+                continue
+            g = fn.defs.get(i["ops"][0]["id"])
+            if g is None or g["op"] != "getelementptr" or g["base"].get("k") != "g":
+                continue
+            tn = gmap.get(g["base"]["name"])
+            if not tn or not tn.get("table") or tn.get("ptrs") or len(tn["table"][0]) != 1 or not tn.get("constant"):
+                continue
+            # the constant added before the value is returned
+            k, v, hops = 0, i["id"], 0
+            users = lambda x: [u for u in fn.insts() if any(o.get("k") == "v" and o.get("id") == x for o in list(u.get("ops", ())) + [w["v"] for w in u.get("incoming", ())])]
+            returned = False
+            while hops < 6:
+                hops += 1
+                us = users(v)
+                if any(u["op"] == "ret" for u in us):
+                    returned = True; break
+                nxt = [u for u in us if u["op"] in ("add", "sub", "sext", "zext", "trunc", "phi") and "id" in u]
+                if len(nxt) != 1:
+                    break
+                u = nxt[0]
+                if u["op"] in ("add", "sub") and u["ops"][1].get("k") == "c" and u["ops"][0].get("id") == v:
+                    k += u["ops"][1]["v"] if u["op"] == "add" else -u["ops"][1]["v"]
+                elif u["op"] in ("add", "sub"):
+                    break
+                v = u["id"]
+            if not returned:
+                continue
+            lens = [r[0] + k for r in tn["table"]]
+            # the parallel message table: same number of rows, every row a string constant
+            for name, ts in sorted(gmap.items()):
+                if ts.get("ptrs") and ts.get("nelem") == len(lens) and len(ts["ptrs"]) == len(lens) and all(p and "str" in gmap.get(p, {}) for p in ts["ptrs"]):
+                    msgs = [gmap[p]["str"].rstrip("\0") for p in ts["ptrs"]]
+                    bad = [(j, msgs[j], lens[j]) for j in range(len(lens)) if len(msgs[j]) != lens[j]]
+                    out["%s / %s" % (tn["name"], name)] = dict(rows=len(lens), function=fn.name, added_constant=k, disagreeing=len(bad))
+                    for (j, m_, l_) in bad[:4]:
+                        report("C06:length-table-disagrees:%s:%d" % (tn["name"], j), "T-announced-length-is-the-string-length", "%s:%s" % (tn.get("file"), tn.get("line")),
+                               "%s answers %d for row %d of %s, but the message in %s is \"%s\" (%d characters): strerror_s decides 'fits' with the announced length and ignores the nested copy's verdict, so for the sizes in between it returns success without the complete message"
+                               % (fn.name, l_, j, tn["name"], name, m_, len(m_)))
+    if not out or max(v["rows"] for v in out.values()) < min_rows:
+        ck.fail_broken("length-table rule: no (length table, message table) pair with at least %d rows found in %s" % (min_rows, tu))
+    return out
+
+
 def run(ck):
     mods, info = frontend.load_modules()
     prog = Program(mods)
@@ -108,9 +166,10 @@ def run(ck):
         ck.sample(dict(function=n, **per[n]))
     pr = pointer_rule(ck, prog, [n for n in POINTER_RETURNING if n in prog.funcs], ck.report)
     prim = prim_common.primitive_rule(ck, prog, "C06", ck.report)
+    ltab = length_table_rule(ck, prog, ck.report)
     fx = selftest(ck)
     fx["primitives"] = prim_common.selftest(ck)
-    cov = dict(returned_pointers=pr, primitives=prim, explanation="All paths of the %d non-truncating copy/concatenate functions: %d success-return path classes, none of which follows an edge on which the counter initialised "
+    cov = dict(returned_pointers=pr, primitives=prim, length_tables=ltab, explanation="All paths of the %d non-truncating copy/concatenate functions: %d success-return path classes, none of which follows an edge on which the counter initialised "
                "from dmax is zero; the budget-exhausted exits (present in every function: the rule is not vacuous) all reach error returns. Returned pointers: on every success path of stpcpy_s/stpncpy_s "
                "the returned pointer equals the position of the terminating null tracked by the destination typestate. Primitives: in each of the 7 mem_prim_* routines, on every path to the return the stores "
                "through dest tile dest[0 .. len*size) exactly once (alignment prologue, unrolled word/element body, tail), each copied element comes from the same offset of src, no count subtraction can wrap; "
@@ -138,4 +197,11 @@ def selftest(ck):
         out[n] = dict(pr.get(n, {}), reports=got)
         if bool(got) != bool(want) or any(g.startswith("BROKEN") for g in got):
             ck.fail_broken("fixture c06.c:%s: pointer rule gave %s" % (n, got))
+    got = []
+    class Sink2:
+        def fail_broken(s, m): got.append("BROKEN " + m)
+    lt = length_table_rule(Sink2(), prog, lambda key, *a, **k: got.append(key), tu=prog.mods[0]["tu"])
+    out["length_tables"] = dict(pairs=sorted(lt), reports=sorted(got))
+    if sorted(got) != ["C06:length-table-disagrees:fx6_lens_stale:2"] or len(lt) != 2:
+        ck.fail_broken("fixture c06.c: length-table rule gave %s over %s" % (sorted(got), sorted(lt)))
     return out
